@@ -16,37 +16,47 @@ def Tree.lstat (t : Tree) (p : Path) : Option Node :=
 
 def splitPath (s : String) : List Name := (s.splitOn "/")
 
-/-- port of `posixpath._joinrealpath(path, rest, strict=False, seen)`; `seen` maps link paths to
-    `none` (being resolved) or `some resolved`.  Returns (path, ok, seen). Fuel bounds recursion. -/
-def joinReal (t : Tree) : Nat → Path → List Name → List (Path × Option Path) →
+/-- port of `posixpath._joinrealpath(path, rest, strict, seen)` (Python 3.12.1); `seen` maps link
+    paths to `none` (being resolved) or `some resolved`.  Returns (path, ok, seen); `ok = false` is the
+    non-strict "loop" result and, with `strict`, stands for the `OSError` that is raised (a component
+    that `lstat` cannot find, or a symlink loop).  Fuel bounds recursion. -/
+def joinReal (t : Tree) (strict : Bool) : Nat → Path → List Name → List (Path × Option Path) →
     (Path × Bool × List (Path × Option Path))
   | 0, path, rest, seen => (path ++ rest.filter (fun n => n ≠ "" ∧ n ≠ "."), false, seen)
   | fuel + 1, path, rest, seen =>
     match rest with
     | [] => (path, true, seen)
     | name :: rest' =>
-      if name = "" ∨ name = "." then joinReal t fuel path rest' seen
-      else if name = ".." then joinReal t fuel path.dropLast rest' seen
+      if name = "" ∨ name = "." then joinReal t strict fuel path rest' seen
+      else if name = ".." then joinReal t strict fuel path.dropLast rest' seen
       else
         let newpath := path ++ [name]
         match t.lstat newpath with
         | some (.link target) =>
           match seen.find? (·.1 == newpath) with
-          | some (_, some resolved) => joinReal t fuel resolved rest' seen
+          | some (_, some resolved) => joinReal t strict fuel resolved rest' seen
           | some (_, none) => (newpath ++ rest', false, seen)     -- loop: leave the remainder unresolved
           | none =>
             let seen1 := (newpath, none) :: seen
             let comps := splitPath target
             let start : Path := if target.startsWith "/" then [] else path
-            let (p2, ok, seen2) := joinReal t fuel start comps seen1
+            let (p2, ok, seen2) := joinReal t strict fuel start comps seen1
             if !ok then (p2 ++ rest', false, seen2)
-            else joinReal t fuel p2 rest' ((newpath, some p2) :: seen2)
-        | _ => joinReal t fuel newpath rest' seen
+            else joinReal t strict fuel p2 rest' ((newpath, some p2) :: seen2)
+        | some _ => joinReal t strict fuel newpath rest' seen
+        | none =>
+          -- `os.lstat` raised: ignored unless strict
+          if strict then (newpath ++ rest', false, seen) else joinReal t strict fuel newpath rest' seen
 
 /-- `os.path.realpath(p)` for absolute `p` (non-strict) -/
 def realpath (t : Tree) (p : List Name) : Path × Bool :=
-  let (r, ok, _) := joinReal t 200 [] p []
+  let (r, ok, _) := joinReal t false 200 [] p []
   (r, ok)
+
+/-- `os.path.realpath(p, strict=True)`: `none` = raised -/
+def realpathStrict (t : Tree) (p : List Name) : Option Path :=
+  let (r, ok, _) := joinReal t true 200 [] p []
+  if ok then some r else none
 
 /-- kernel-style lookup following all symlinks (what `stat`/`open` see): none = ENOENT/ELOOP/ENOTDIR -/
 def statFollow (t : Tree) (p : Path) : Option (Path × Node) :=
